@@ -4,6 +4,7 @@ package checks
 var Registry = map[string]func(tier string) int{
 	"C01": C01,
 	"C03": C03,
+	"C04": C04,
 	"C08": C08,
 	"C10": C10,
 	"C13": C13,
